@@ -25,7 +25,7 @@ def run(tier, t0):
         return fn.key in reach
     results = [
         err.err2(prog, scope, table, floor=1700),
-        err.err1(prog, scope, table, floor=1000),
+        err.err1(prog, scope, table, floor=900),
         err.err3(prog),
         err.err4(prog),
     ]
